@@ -181,20 +181,22 @@ func (i *Interpreter) Exec(ctx context.Context, bs match.Bindings, props core.St
 	// "output" adds the given message to the list of messages to
 	// emit.
 	env["out"] = func(x interface{}) interface{} {
-		var err error
-
 		switch vv := x.(type) {
 		case goja.Value:
 			x = vv.Export()
 		}
 
-		if x, err = core.Canonicalize(x); err != nil {
+		msg, err := core.Canonicalize(x)
+		if err != nil {
 			// Will end up as a Javascript exception.
 			panic(err)
 		}
 
-		exe.AddEmitted(x)
+		exe.AddEmitted(msg)
 
+		// Return what we were given and not the message that
+		// we queued: Code that changes the returned value
+		// should not change what was emitted.
 		return x
 	}
 
